@@ -213,7 +213,7 @@ pub fn run_c09(cx: &Cx) -> PropResult {
                 continue;
             }
             let strat = compiled_dedup_strategy(d);
-            if drive(tag_seed(derive_seed(cx.seed, cx.prop, i as u64, 7), 10 + (i as u64 % 200)), &strat, per_decl, acc, &|c: &DedupCase| to_json(c), &mut |c, a, r| check_c09(c, a, r)) {
+            if drive(tag_seed(derive_seed(cx.seed, cx.prop, i as u64, 7), 10 + i as u64), &strat, per_decl, acc, &|c: &DedupCase| to_json(c), &mut |c, a, r| check_c09(c, a, r)) {
                 return;
             }
             acc.bump("compiled_declarations_with_deduplicated_strings", 1);
